@@ -25,13 +25,13 @@ def sh(cmd, **kw):
 	return subprocess.run(cmd, shell=isinstance(cmd, str), capture_output=True, text=True, **kw)
 
 
-def cmd_import(agent_dir, prop):
+def cmd_import(agent_dir, prop, offset=0):
 	d = os.path.join(agent_dir, 'deliver')
 	for k in (1, 2, 3, 4):
 		p = os.path.join(d, f'change{k}.diff')
 		if not os.path.exists(p):
 			continue
-		out = os.path.join(SEEDED, f'{prop}-{k}')
+		out = os.path.join(SEEDED, f'{prop}-{k + offset}')
 		os.makedirs(out, exist_ok=True)
 		shutil.copy(p, os.path.join(out, 'patch.diff'))
 		for src, dst in ((f'demo{k}.py', 'demo.py'), (f'notes{k}.md', 'notes.md')):
@@ -69,9 +69,9 @@ def _run_demo(wt, sid, orig_dir_hint=None):
 	src = open(os.path.join(SEEDED, sid, 'demo.py')).read()
 	# demos were written inside /tmp/gw-<PROP>; point them at the verification worktree
 	prop = sid.split('-')[0]
-	src = src.replace(f'/tmp/gw-{prop}', wt)
+	src = src.replace(f'/tmp/gw-{prop}', wt).replace(f'/tmp/gw2-{prop}', wt)
 	# data files the sub-agent created next to the test data (untracked in its worktree)
-	agent = f'/tmp/gw-{prop}'
+	agent = f'/tmp/gw2-{prop}' if int(sid.split('-')[1]) > 3 else f'/tmp/gw-{prop}'
 	if os.path.isdir(agent):
 		others = sh(['git', '-C', agent, 'ls-files', '--others', '--exclude-standard', 'tests']).stdout.split('\n')
 		for rel in others:
@@ -134,6 +134,50 @@ def cmd_verify(sid):
 		_rm_worktree(wt)
 
 
+def cmd_check_scratch(sid, tier='quick', props=None):
+	"""Like cmd_check but against a scratch copy of /repo/src (GAMBIT_VERIF_REPO), leaving /repo untouched -
+	used while background runs are reading /repo."""
+	meta_path = os.path.join(SEEDED, sid, 'meta.json')
+	meta = json.load(open(meta_path)) if os.path.exists(meta_path) else {}
+	props = props or [sid.split('-')[0]]
+	d = f'/var/tmp/gvsim-seeded-{sid}'
+	shutil.rmtree(d, ignore_errors=True)
+	os.makedirs(d)
+	shutil.copytree('/repo/src', os.path.join(d, 'src'), ignore=shutil.ignore_patterns('__pycache__', '*.egg-info'))
+	ap = sh(['patch', '-p1', '-s', '-d', d, '-i', os.path.join(SEEDED, sid, 'patch.diff')])
+	if ap.returncode != 0:
+		print(sid, 'patch does not apply:', (ap.stdout + ap.stderr)[-300:])
+		shutil.rmtree(d, ignore_errors=True)
+		return
+	save = f'/var/tmp/gvsim-evsave-{os.getpid()}'
+	try:
+		shutil.rmtree(save, ignore_errors=True)
+		os.makedirs(save)
+		for x in ('evidence', 'replays'):
+			if os.path.isdir(os.path.join(VERIF, x)):
+				shutil.copytree(os.path.join(VERIF, x), os.path.join(save, x))
+		results = meta.setdefault('checks', {})
+		for prop in props:
+			t0 = time.time()
+			r = sh([os.path.join(VERIF, 'check'), prop, tier], cwd=VERIF, env=dict(os.environ, GAMBIT_VERIF_REPO=d))
+			viol = [l for l in r.stdout.splitlines() if l.startswith('VIOLATION') or l.startswith('  C')]
+			results[f'{prop}:{tier}'] = dict(exit=r.returncode, detected=r.returncode == 1 and any(l.startswith('VIOLATION') for l in viol),
+			                                 lines=viol[:6], wall_s=round(time.time() - t0), how='scratch copy of /repo/src via GAMBIT_VERIF_REPO')
+			print(sid, prop, tier, 'exit', r.returncode, viol[:4])
+			if r.returncode not in (0, 1):
+				print(r.stdout[-1500:])
+	finally:
+		for x in ('evidence', 'replays'):
+			shutil.rmtree(os.path.join(VERIF, x), ignore_errors=True)
+			if os.path.isdir(os.path.join(save, x)):
+				shutil.copytree(os.path.join(save, x), os.path.join(VERIF, x))
+		shutil.rmtree(save, ignore_errors=True)
+		shutil.rmtree(d, ignore_errors=True)
+	det = [k for k, v in meta.get('checks', {}).items() if v.get('detected')]
+	meta['detected_by'] = det
+	json.dump(meta, open(meta_path, 'w'), indent=1)
+
+
 def cmd_check(sid, tier='quick', props=None):
 	meta_path = os.path.join(SEEDED, sid, 'meta.json')
 	meta = json.load(open(meta_path)) if os.path.exists(meta_path) else {}
@@ -181,10 +225,14 @@ def cmd_check(sid, tier='quick', props=None):
 if __name__ == '__main__':
 	a = sys.argv[1:]
 	if a[0] == 'import':
-		cmd_import(a[1], a[2])
+		cmd_import(a[1], a[2], int(a[3]) if len(a) > 3 else 0)
 	elif a[0] == 'verify':
 		for sid in a[1:]:
 			cmd_verify(sid)
+	elif a[0] == 'scheck':
+		tier = a[2] if len(a) > 2 and a[2] in ('quick', 'thorough') else 'quick'
+		props = [x for x in a[2:] if x not in ('quick', 'thorough')]
+		cmd_check_scratch(a[1], tier, props or None)
 	elif a[0] == 'check':
 		tier = a[2] if len(a) > 2 and a[2] in ('quick', 'thorough') else 'quick'
 		props = [x for x in a[2:] if x not in ('quick', 'thorough')]
